@@ -31,7 +31,7 @@ class Ctx:
 
 
 def run_property(pid: str, repo: str, tier: str, seed: int = 0, write=True, evidence_dir=None,
-                 quiet=False, selftest=True):
+                 quiet=False, selftest=True, _normalise=True):
     """Run all rules of one property; returns (exit code, Report)."""
     rep = Report(pid, tier, seed)
     try:
@@ -52,8 +52,52 @@ def run_property(pid: str, repo: str, tier: str, seed: int = 0, write=True, evid
     except Exception as e:  # internal error of the analysis, never a property verdict
         rep.error("internal error: %s: %s | %s" % (type(e).__name__, e,
                                                    traceback.format_exc().strip().splitlines()[-3:]))
+    if _normalise and not rep.errors:
+        try:
+            _second_opinion(pid, repo, tier, seed, rep)
+        except Exception as e:  # the second opinion is an aid; its failure leaves the first verdicts as they are
+            rep.note("normalised re-run failed: %s: %s" % (type(e).__name__, e))
     code = rep.finish(write=write, evidence_dir=evidence_dir, quiet=quiet)
     return code, rep
+
+
+def _second_opinion(pid, repo, tier, seed, rep):
+    """Obligations that could not be decided are re-examined on a semantics-preserving normal form of the program
+    (private helpers inlined, see qsa.normalize).  Per rule: if the rule is fully decided there, its obligations replace
+    the undecided ones."""
+    import shutil
+    import tempfile
+    from .report import UNDECIDED, VIOLATION, HOLDS
+    und_rules = sorted({o.rule for o in rep.obs if o.status == UNDECIDED})
+    if not und_rules:
+        return
+    from .normalize import anchors_from_rules, normalise_repo
+    d = tempfile.mkdtemp(prefix="qsa_norm_")
+    try:
+        stats = normalise_repo(repo, d, anchors_from_rules(VERIF))
+        if not stats["calls_inlined"]:
+            return
+        code2, rep2 = run_property(pid, d, "quick", seed, write=False, quiet=True, selftest=False, _normalise=False)
+        adopted = []
+        for r in und_rules:
+            obs2 = [o for o in rep2.obs if o.rule == r and o.status in (HOLDS, VIOLATION, UNDECIDED)]
+            if not obs2 or any(o.status == UNDECIDED for o in obs2):
+                continue
+            if len(obs2) < max(1, (rep.floors.get(r, 1) + 1) // 2):
+                continue
+            # replace this rule's obligations by the ones decided on the normal form
+            rep.obs = [o for o in rep.obs if o.rule != r]
+            rep._bykey = {k: v for k, v in rep._bykey.items() if v.rule != r}
+            for o in obs2:
+                o.detail = (o.detail or "") + " [decided on the normal form of the program: private helpers inlined]"
+                rep.add(o)
+            adopted.append(r)
+        if adopted:
+            rep.note("rule(s) %s were undecided on the source as written and are decided on its normal form (%d helper calls inlined in %d files)"
+                     % (", ".join(adopted), stats["calls_inlined"], stats["files_changed"]))
+            rep.stats["normal_form"] = dict(stats, rules_adopted=adopted)
+    finally:
+        shutil.rmtree(d, ignore_errors=True)
 
 
 def replay(path: str, repo: str) -> int:
